@@ -329,6 +329,9 @@ def _unjson(v, t):
 
 
 def generate():
-    """translator tie: regenerate coq/Gen/SrcEval.v from the source of the imported code (py2mini)"""
+    """translator tie: regenerate coq/Gen/SrcEval.v (evaluation nodes) and coq/Gen/SrcExec.v (the executor's row loop)
+    from the source of the imported code (py2mini)"""
     from . import gen_src
-    return gen_src.generate('eval')
+    out = dict(gen_src.generate('eval'))
+    out.update(gen_src.generate('exec'))
+    return out
